@@ -816,3 +816,55 @@ def rule_interlace_gate_matches(ctx):
                 ctx.violated("ILGATE", key, f.where(c[5]), "the conversion to/from `%s` is gated by `%s != MFGR_INTERLACE_PIXEL`: when the two interlaces differ it is skipped (or done) at the wrong time" % (Y, X))
     ctx.floor("ILGATE", 3, n, "(gated interlace conversions in the GR read/write routines)")
     return n
+
+
+def rule_gr_access_matches_direction(ctx):
+    """GRPERM (C09, C14): the GR routines open an image's access element on demand through GRIgetaid(ri, perm).  A routine that only
+    reads pixels (GRread*) asks for read access — a request for write access fails on a file opened read-only, so the read would
+    work or fail depending on whether some other call opened the element first.  A routine that writes (GRwrite*) either calls
+    GRIgetaid(.., DFACC_WRITE) unconditionally (it upgrades an element opened for reading) or tests `acc_perm & DFACC_WRITE`
+    before it reuses an element that is already open."""
+    from .codec import ast_walk
+    from .facts import kind, strip, walk, render, is_int, int_val, calls_in
+    prog = ctx.prog
+    n = 0
+    for f in prog.lib_funcs():
+        if not f.rel.endswith("hdf/src/mfgr.c") or not (f.name.startswith("GRread") or f.name.startswith("GRwrite")) or not f.raw.get("ast"):
+            continue
+        sites = []
+
+        def vis(nd, st):
+            exprs = [nd[1]] if nd[0] in ("s", "if") and nd[1] is not None else []
+            for e in exprs:
+                for c in calls_in(e, True):
+                    if c[1] == "GRIgetaid" and len(c[3]) > 1 and is_int(c[3][1]):
+                        sites.append((c, nd, list(st)))
+            return True
+
+        ast_walk(f.raw["ast"], vis)
+        for k, (c, nd, st) in enumerate(sites):
+            n += 1
+            key = "GRPERM:%s#%d" % (f.name, k + 1)
+            perm = int_val(c[3][1])
+            line = c[5] if len(c) > 5 and isinstance(c[5], int) else f.line
+            if f.name.startswith("GRread"):
+                if perm & 2:
+                    ctx.violated("GRPERM", key, f.where(line), "%s, which only reads, asks GRIgetaid for write access: on a read-only file the call fails unless another routine opened the element before" % f.name)
+                else:
+                    ctx.holds("GRPERM", key, f.where(line), "a reading routine asks for read access", nontrivial=True)
+            else:
+                if not (perm & 2):
+                    ctx.violated("GRPERM", key, f.where(line), "%s, which writes, asks GRIgetaid for read access only" % f.name)
+                    continue
+                gates = [s_ for s_ in st if s_[0] == "if"]
+                reuse_unchecked = False
+                for g in gates:
+                    r = render(g[1])
+                    if "img_aid" in r and "acc_perm" not in r:
+                        reuse_unchecked = True
+                if reuse_unchecked:
+                    ctx.violated("GRPERM", key, f.where(line), "%s requests write access only when no access element is open (`%s`): an element that was opened for reading is reused for writing" % (f.name, render(gates[-1][1])[:50]))
+                else:
+                    ctx.holds("GRPERM", key, f.where(line), "a writing routine obtains write access unconditionally or after testing the permission of the open element", nontrivial=True)
+    ctx.floor("GRPERM", 4, n, "(GRIgetaid requests in the GR read/write routines)")
+    return n
